@@ -97,6 +97,15 @@ impl Parser {
             )]);
         }
 
+        if let Some(ListBound::Empty) = ty.has_index_length_property() {
+            return Err(vec![new_err(
+                value_span,
+                file_name,
+                "the compiler knows that this list is empty, and will not permit unpacking it"
+                    .to_owned(),
+            )]);
+        }
+
         if let Some(ListBound::Numeric(upper_bound)) = ty.has_index_length_property() {
             if idents.len() - 1 > upper_bound {
                 return Err(vec![new_err(
